@@ -603,3 +603,97 @@ Proof.
     + injection E as <- <- _. vm_compute. reflexivity.
     + discriminate E.
 Qed.
+
+(** ** Plackett-Luce: the delta is >= 0 in IEEE 754 binary64.
+
+    [C06_pl_delta_nonneg_binary64]: the delta that [pl_omega_delta] returns for a team [ti] of
+    the game, computed on the entries [compute_pl] builds (the fold of [pl_step] over
+    [(q, (tq, (sum_q, A_q)))]), is >= 0 as a double, for any scale [c] ([compute_pl] passes
+    [c := pl_c P trs]).  This is the hypothesis [0 <= delta] of [C06_update_sigma_le_binary64]
+    for the Plackett-Luce model.  Why: each term is fl(fl(p * fl(1 - p)) / A_q) with
+    p = fl(e_i / sum_q); [sum_q] is the left-to-right float sum ([reduce_add]) of the
+    exponentials exp(mu_t / c) >= 0 of the teams ranked no better than [tq], and a term is only
+    added when rank tq <= rank ti, so e_i is one of the summands: fl(acc + x) >= x for acc >= 0
+    and later additions of non-negative doubles keep the sum >= x (rounding is monotone, doubles
+    are fixed points), hence e_i <= sum_q as doubles, p in [0,1], fl(1 - p) >= 0.  A_q counts the
+    teams tied with [tq]: an int between 1 and the number of teams, converted exactly (number of
+    teams <= 2^53).  A finite [p] forces [sum_q <> 0] (x/0 is an infinity or a NaN).
+    Premises: exp >= 0 on finite arguments; the factors [sigma_i^2 / c^2] and gamma are >= 0
+    (nothing is assumed about [pow64]); no overflow in the arguments of exp, in the sums [sum_q],
+    in the accumulated delta and in the result.  The finiteness of every summand, of every prefix
+    of each sum, of p, 1 - p and of each term is derived. *)
+From OSV.Lemmas Require FloatSignL.
+
+Theorem C06_pl_delta_nonneg_binary64 :
+  forall (exp64 erfc64 pow64 icdf64 : binary64 -> binary64)
+         (P : params binary64) (trs : list (trating binary64)) (c : binary64)
+         (i : nat) (ti : trating binary64),
+  (forall x : binary64, is_finite 53 1024 x = true -> 0 <= B2R 53 1024 (exp64 x)) ->
+  In ti trs ->
+  (Z.of_nat (length trs) <= 9007199254740992)%Z ->
+  0 <= B2R 53 1024 (@fdiv binary64 (B64Num exp64 erfc64 pow64 icdf64) (t_ss ti)
+                      (@fpow2 binary64 (B64Num exp64 erfc64 pow64 icdf64) c)) ->
+  0 <= B2R 53 1024 (@gamma_of binary64 P c trs ti) ->
+  (forall t : trating binary64, In t trs ->
+     is_finite 53 1024 (@fdiv binary64 (B64Num exp64 erfc64 pow64 icdf64) (t_mu t) c) = true) ->
+  (forall s : binary64, In s (@pl_sum_q binary64 (B64Num exp64 erfc64 pow64 icdf64) trs c) ->
+     is_finite 53 1024 s = true) ->
+  (forall pre post : list (nat * (trating binary64 * (binary64 * nat))),
+     combine (seq 0 (length trs))
+       (combine trs (combine (@pl_sum_q binary64 (B64Num exp64 erfc64 pow64 icdf64) trs c) (@pl_a binary64 trs)))
+     = pre ++ post ->
+     is_finite 53 1024
+       (snd (fold_left (@pl_step binary64 (B64Num exp64 erfc64 pow64 icdf64) i ti
+                          (@fexp binary64 (B64Num exp64 erfc64 pow64 icdf64)
+                             (@fdiv binary64 (B64Num exp64 erfc64 pow64 icdf64) (t_mu ti) c)))
+               pre (@fzero binary64 (B64Num exp64 erfc64 pow64 icdf64),
+                    @fzero binary64 (B64Num exp64 erfc64 pow64 icdf64)))) = true) ->
+  is_finite 53 1024
+    (snd (@pl_omega_delta binary64 (B64Num exp64 erfc64 pow64 icdf64) P trs c
+            (combine (seq 0 (length trs))
+               (combine trs (combine (@pl_sum_q binary64 (B64Num exp64 erfc64 pow64 icdf64) trs c)
+                               (@pl_a binary64 trs))))
+            i ti)) = true ->
+  0 <= B2R 53 1024
+         (snd (@pl_omega_delta binary64 (B64Num exp64 erfc64 pow64 icdf64) P trs c
+                 (combine (seq 0 (length trs))
+                    (combine trs (combine (@pl_sum_q binary64 (B64Num exp64 erfc64 pow64 icdf64) trs c)
+                                    (@pl_a binary64 trs))))
+                 i ti)).
+Proof. exact FloatSignL.pl_delta_nonneg_b64. Qed.
+Print Assumptions C06_pl_delta_nonneg_binary64.
+
+(** Non-vacuity: three teams with aggregates (mu, sigma^2, rank) = (25, 139, 0), (30, 50, 1),
+    (20, 200, 1) (the last two tied), beta = 25/6, default gamma, [c := pl_c P trs], stand-ins
+    [exp := |x|], [x ** 2 := x * x]; the team considered is the second one (index 1), whose
+    fold uses all three entries.  Its delta is strictly positive (by computation on doubles). *)
+Example C06_pl_delta_nonneg_binary64_example :
+  let N := B64Num b64_abs (fun x => x) (fun x => b64_mult mode_NE x x) (fun x => x) in
+  let P := @mkParams binary64 (b64_of_bits 4616377268039232171) (b64_of_dyadic 1 (-13))
+             (@gamma_default binary64 N) in
+  let t0 := @mkT binary64 (b64_of_Z 25) (b64_of_Z 139) [] 0 in
+  let ti := @mkT binary64 (b64_of_Z 30) (b64_of_Z 50) [] 1 in
+  let t2 := @mkT binary64 (b64_of_Z 20) (b64_of_Z 200) [] 1 in
+  let trs := [t0; ti; t2] in
+  let c := @pl_c binary64 N P trs in
+  let qs := combine (seq 0 (length trs)) (combine trs (combine (@pl_sum_q binary64 N trs c) (@pl_a binary64 trs))) in
+  0 <= B2R 53 1024 (snd (@pl_omega_delta binary64 N P trs c qs 1 ti))
+  /\ b64_ltb (@fzero binary64 N) (snd (@pl_omega_delta binary64 N P trs c qs 1 ti)) = true
+  /\ nth_error (@compute_pl binary64 N P trs) 1
+     = Some (@update_team binary64 N P ti (@pl_omega_delta binary64 N P trs c qs 1 ti)).
+Proof.
+  intros N P t0 ti t2 trs c qs. split; [|split; [vm_compute; reflexivity | reflexivity]].
+  apply C06_pl_delta_nonneg_binary64.
+  - intros x _. change (0 <= B2R 53 1024 (Babs 53 1024 unop_nan_pl64 x)).
+    rewrite B2R_Babs. apply Rabs_pos.
+  - right. left. reflexivity.
+  - vm_compute. discriminate.
+  - apply FloatOrderL.b64_sign_nonneg. vm_compute. reflexivity.
+  - apply FloatOrderL.b64_sign_nonneg. vm_compute. reflexivity.
+  - intros t [<-|[<-|[<-|[]]]]; vm_compute; reflexivity.
+  - intros s Hs. unfold pl_sum_q, trs in Hs. cbn [map In] in Hs.
+    destruct Hs as [<-|[<-|[<-|[]]]]; vm_compute; reflexivity.
+  - intros pre post E. destruct (FloatSignL.prefix_firstn _ pre post E) as (n & Hn & ->). clear E.
+    destruct n as [|[|[|[|n]]]]; [vm_compute; reflexivity .. | vm_compute in Hn; discriminate Hn].
+  - vm_compute. reflexivity.
+Qed.
